@@ -795,4 +795,236 @@ theorem trie2_complete_tree (hI : Ideal A) (cfg : Cfg) (s : Tree H) (n : Nat) (h
   rw [verify2_nonzero k P (hash_ne_zero hI hwf hn)]
   exact trie2_complete_aux cfg P legacy cached s n verifyFuel k hwf hn hk (verifyFuel_ge h256) hlook
 
+/-! ### trie2 range proofs (single-element, empty range) -/
+
+/-- what `proofToPath` does with the child `get` returned -/
+def afterR (A : HashAlg H) (rc : RCfg) (P : PSet H) (allow : Bool) (fuel : Nat) (node : PNode H)
+    (key : Path) (c : Child H) (key' : Path) : Option (List (PNode H × Path) × Option H) :=
+  match c.tag with
+  | .nil => if allow then some ([(node, key)], none) else none
+  | .value => if rc.earlyValue || key'.length = 0 then some ([(node, key)], some c.h) else none
+  | .hash =>
+    if rc.leafHash && key'.length = 0 then some ([(node, key)], some c.h) else
+    match resolveAux A rc P allow fuel c.h key' with
+    | none => none
+    | some (rest, v) => some ((node, key) :: rest, v)
+
+theorem resolveAux_succ {rc : RCfg} {P : PSet H} {allow : Bool} {key : Path} {fuel : Nat} {e : H}
+    {nd : PNode H} (hget : P.get e = some nd) (hh : (rc.checkHash && nd.hash A ≠ e) = false) :
+    resolveAux A rc P allow (fuel + 1) e key =
+      match step2 nd key with
+      | (none, _) => if allow then some ([(nd, key)], none) else none
+      | (some c, key') => afterR A rc P allow fuel nd key c key' := by
+  simp only [resolveAux, hget, afterR]
+  rw [if_neg (by simpa using hh)]
+  try rfl
+
+/-- the value (or absence) `proofToPath` reports is the trie's, for the repaired variant -/
+def ValOK (A : HashAlg H) (s : Tree H) (key : Path) (r : Option (List (PNode H × Path) × Option H)) : Prop :=
+  match r with
+  | none => True
+  | some (_, some v) => v = s.get A key
+  | some (_, none) => s.get A key = A.zero
+
+theorem afterR_sound (hI : Ideal A) {rc : RCfg} (hev : rc.earlyValue = false)
+    (hlh : rc.leafHash = true) {P : PSet H} {allow : Bool}
+    {t' : Tree H} {n fuel : Nat} {node : PNode H} {key : Path} {ch : Child H} {key' : Path}
+    (hwf : WF t' n) (hk : key'.length = n) (hf : ch.felt A = t'.hash A)
+    (ih : 0 < n → ValOK A t' key' (resolveAux A rc P allow fuel (t'.hash A) key')) :
+    ValOK A t' key' (afterR A rc P allow fuel node key ch key') := by
+  unfold afterR
+  cases htag : ch.tag with
+  | nil =>
+    have hz : t'.hash A = A.zero := by rw [← hf]; simp [Child.felt, htag]
+    cases allow <;> simp only [ValOK, if_true, Bool.false_eq_true, if_false]
+    by_cases hn : 0 < n
+    · exact absurd hz (hash_ne_zero hI hwf hn)
+    · have : n = 0 := by omega
+      subst this
+      rw [get_of_WF_zero hwf, hz]
+  | value =>
+    have hfe : ch.h = t'.hash A := by rw [← hf]; simp [Child.felt, htag]
+    simp only [hev, Bool.false_or]
+    by_cases hn : n = 0
+    · subst hn
+      simp only [hk, decide_true, if_true, ValOK]
+      rw [get_of_WF_zero hwf, hfe]
+    · have : ¬ key'.length = 0 := by omega
+      simp [this, ValOK]
+  | hash =>
+    have hfe : ch.h = t'.hash A := by rw [← hf]; simp [Child.felt, htag]
+    simp only [hfe, hlh, Bool.true_and]
+    by_cases hn : 0 < n
+    · have hk' : ¬ key'.length = 0 := by omega
+      simp only [hk', decide_false, Bool.false_eq_true, if_false]
+      have := ih hn
+      cases hr : resolveAux A rc P allow fuel (t'.hash A) key' with
+      | none => simp [ValOK]
+      | some pr =>
+        obtain ⟨rest, v⟩ := pr
+        rw [hr] at this
+        cases v <;> simpa [ValOK] using this
+    · have hn0 : n = 0 := by omega
+      subst hn0
+      simp only [hk, decide_true, if_true, ValOK]
+      rw [get_of_WF_zero hwf]
+
+
+theorem resolve_sound (hI : Ideal A) (rc : RCfg) (hch : rc.checkHash = true)
+    (hev : rc.earlyValue = false) (hlh : rc.leafHash = true) (P : PSet H) (allow : Bool) :
+    ∀ (s : Tree H) (m fuel : Nat) (key : Path), WF s m → 0 < m → key.length = m →
+      ValOK A s key (resolveAux A rc P allow fuel (s.hash A) key) := by
+  intro s
+  induction s with
+  | leaf x => intro m fuel key hwf hm; have := hwf.leaf_inv; omega
+  | bin l r ihl ihr =>
+    intro m fuel key hwf hm hk
+    obtain ⟨n, rfl, hl, hr⟩ := hwf.bin_inv
+    cases fuel with
+    | zero => simp [resolveAux, ValOK]
+    | succ f =>
+      cases hget : P.get ((Tree.bin l r).hash A) with
+      | none => simp [resolveAux, hget, ValOK]
+      | some nd =>
+        by_cases hh : nd.hash A = (Tree.bin l r).hash A
+        · obtain ⟨l', r', c', rfl, hl', hr'⟩ := pnode_of_hash_bin hI (a := l.hash A) (b := r.hash A) hh
+          rw [resolveAux_succ hget (by simp [hh])]
+          simp only [step2]
+          have hkl : (key.drop 1).length = n := by simp; omega
+          have hgetT : (Tree.bin l r).get A key =
+              if key.headD false then r.get A (key.drop 1) else l.get A (key.drop 1) := by
+            simp [Tree.get, List.drop_one]
+          cases hb : key.headD false with
+          | true =>
+            have h1 := afterR_sound hI hev hlh (P := P) (allow := allow) (fuel := f)
+              (node := PNode.bin l' r' c') (key := key) hr hkl hr'
+              (fun hn => ihr n f _ hr hn hkl)
+            simp only [if_true]
+            unfold ValOK at h1 ⊢
+            rw [hgetT, hb]
+            simpa using h1
+          | false =>
+            have h1 := afterR_sound hI hev hlh (P := P) (allow := allow) (fuel := f)
+              (node := PNode.bin l' r' c') (key := key) hl hkl hl'
+              (fun hn => ihl n f _ hl hn hkl)
+            simp only [Bool.false_eq_true, if_false]
+            unfold ValOK at h1 ⊢
+            rw [hgetT, hb]
+            simpa using h1
+        · simp [resolveAux, hget, hch, hh, ValOK]
+  | edge p c ih =>
+    intro m fuel key hwf hm hk
+    obtain ⟨n, rfl, hp, hc⟩ := hwf.edge_inv
+    cases fuel with
+    | zero => simp [resolveAux, ValOK]
+    | succ f =>
+      cases hget : P.get ((Tree.edge p c).hash A) with
+      | none => simp [resolveAux, hget, ValOK]
+      | some nd =>
+        by_cases hh : nd.hash A = (Tree.edge p c).hash A
+        · obtain ⟨ch, cc, rfl, hch'⟩ := pnode_of_hash_edge hI (c := c.hash A) (p := p) hh
+          rw [resolveAux_succ hget (by simp [hh])]
+          have hcomp : pathCompat p key = p.isPrefixOf key := by
+            rw [pathCompat_comm]; exact pathCompat_of_le (by omega)
+          simp only [step2, hcomp]
+          cases hpre : p.isPrefixOf key with
+          | false =>
+            cases allow <;> simp [ValOK, Tree.get, hpre]
+          | true =>
+            simp only [Bool.not_true, Bool.false_eq_true, if_false]
+            have hkl : (key.drop p.length).length = n := by simp; omega
+            have h1 := afterR_sound hI hev hlh (P := P) (allow := allow) (fuel := f)
+              (node := PNode.edge p ch cc) (key := key) hc hkl hch'
+              (fun hn => ih n f _ hc hn hkl)
+            unfold ValOK at h1 ⊢
+            simpa [Tree.get, hpre] using h1
+        · simp [resolveAux, hget, hch, hh, ValOK]
+
+
+theorem pathVal_replicate_false (n : Nat) : pathVal (List.replicate n false) = 0 := by
+  induction n with
+  | zero => rfl
+  | succ n ih => simp [List.replicate_succ, pathVal, ih]
+
+theorem isPrefixOf_eq_of_length_eq {a b : Path} (h : a.length = b.length) :
+    a.isPrefixOf b = decide (a = b) := by
+  induction a generalizing b with
+  | nil => cases b <;> simp_all
+  | cons x xs ih =>
+    cases b with
+    | nil => simp at h
+    | cons y ys =>
+      have := ih (b := ys) (by simpa using h)
+      by_cases hxy : x = y <;> simp [List.isPrefixOf, this, hxy]
+
+theorem pathCompat_self (k : Path) : pathCompat k k = true := by
+  simp [pathCompat, isPrefixOf_eq_of_length_eq]
+
+theorem single_forgery (A : HashAlg H) (root : H) (k : Path) (v : H) (hv : v ≠ A.zero) :
+    verifySingle A RCfg.asIs root k v [(root, PNode.edge k ⟨Tag.value, v⟩ none)] = RRes.ok false := by
+  simp [verifySingle, hv, verifyFuel, resolveAux, PSet.get, RCfg.asIs, step2, pathCompat_self, hasRight]
+
+theorem empty_forgery (A : HashAlg H) (root : H) (first : Path) (v : H)
+    (hne : first ≠ List.replicate first.length false) :
+    verifyEmpty A RCfg.asIs root first
+      [(root, PNode.edge (List.replicate first.length false) ⟨Tag.value, v⟩ none)] = RRes.ok false := by
+  have hlen : (List.replicate first.length false).length = first.length := by simp
+  have hc : pathCompat (List.replicate first.length false) first = false := by
+    unfold pathCompat
+    rw [isPrefixOf_eq_of_length_eq hlen, isPrefixOf_eq_of_length_eq hlen.symm]
+    simp [hne, Ne.symm hne]
+  simp [verifyEmpty, verifyFuel, resolveAux, PSet.get, RCfg.asIs, step2, hc, hasRight, cmpGt,
+    pathVal_replicate_false]
+
+theorem single_sound (hI : Ideal A) (rc : RCfg) (hch : rc.checkHash = true)
+    (hev : rc.earlyValue = false) (hlh : rc.leafHash = true) (t : Trie H) (n : Nat) (hwf : Trie.WF t n)
+    (hn : 0 < n) (k : Path) (hk : k.length = n) (v : H) (P : PSet H) (more : Bool)
+    (h : verifySingle A rc (t.hash A) k v P = RRes.ok more) : t.get A k = v := by
+  unfold verifySingle at h
+  split at h
+  · cases h
+  · cases hr : resolveAux A rc P false verifyFuel (t.hash A) k with
+    | none => simp [hr] at h
+    | some pr =>
+      obtain ⟨path, val⟩ := pr
+      rw [hr] at h
+      cases val with
+      | none => simp at h
+      | some w =>
+        simp only at h
+        split at h
+        · rename_i hw
+          cases t with
+          | none =>
+            -- zero root: no node hashes to zero
+            simp only [Trie.hash] at hr
+            unfold verifyFuel at hr
+            cases hget : P.get A.zero with
+            | none => simp [resolveAux, hget] at hr
+            | some nd => simp [resolveAux, hget, hch, pnode_hash_ne_zero hI nd] at hr
+          | some s =>
+            have := resolve_sound hI rc hch hev hlh P false s n verifyFuel k hwf hn hk
+            simp only [Trie.hash] at hr
+            rw [hr] at this
+            simp only [ValOK] at this
+            simp only [Trie.get]
+            rw [← this, hw]
+        · cases h
+
+theorem empty_sound (hI : Ideal A) (rc : RCfg) (hch : rc.checkHash = true)
+    (hev : rc.earlyValue = false) (hlh : rc.leafHash = true) (t : Tree H) (n : Nat) (hwf : WF t n)
+    (hn : 0 < n) (first : Path) (hk : first.length = n) (P : PSet H) (more : Bool)
+    (h : verifyEmpty A rc (t.hash A) first P = RRes.ok more) : t.get A first = A.zero := by
+  unfold verifyEmpty at h
+  cases hr : resolveAux A rc P true verifyFuel (t.hash A) first with
+  | none => simp [hr] at h
+  | some pr =>
+    obtain ⟨path, val⟩ := pr
+    rw [hr] at h
+    have := resolve_sound hI rc hch hev hlh P true t n verifyFuel first hwf hn hk
+    rw [hr] at this
+    cases val with
+    | some w => simp at h
+    | none => simpa [ValOK] using this
+
 end Juno.C10
